@@ -123,6 +123,7 @@ type xferDir struct {
 	readPause int           // pause after this many reads (0 = never)
 	pauseFor  time.Duration // length of the pause
 	setRecvParams bool      // receiver mirrors the reliability params on its stream object
+	flip          []bool    // the writer toggles ordered/unordered before write i (mixed ordering on one stream)
 	shortReads    bool      // the reader sometimes offers a buffer that is too small first
 	recvUnordered int       // directed scenarios: 1 = receiver configures its stream object unordered, 2 = ordered
 
@@ -257,14 +258,20 @@ func (x *xfer) start() {
 			st := x.gotStream(sender, d.sid, s)
 			d.tx = st
 			s.SetReliabilityParams(d.unordered, d.relType, d.relVal)
+			curUnordered := d.unordered
 			for i, n := range d.sizes {
 				if d.gaps != nil && d.gaps[i] > 0 {
 					h := vsimBlocking("client.sleep")
 					time.Sleep(d.gaps[i])
 					vsimWoke(h)
 				}
+				if d.flip != nil && d.flip[i] {
+					curUnordered = !curUnordered
+					s.SetReliabilityParams(curUnordered, d.relType, d.relVal)
+					w.probe("ordering-toggled-on-stream")
+				}
 				m := w.newMsg(st, n, d.dcep != nil && d.dcep[i])
-				m.unordered, m.relType, m.relVal = d.unordered, d.relType, d.relVal
+				m.unordered, m.relType, m.relVal = curUnordered, d.relType, d.relVal
 				if m.dcep {
 					x.index[uint32(m.id)|0x80000000] = m
 				} else {
@@ -506,6 +513,14 @@ func genDirs(w *world, o xferOpts) []*xferDir {
 				d.readDelay = time.Duration(1+tp.intn(50)) * time.Millisecond
 			}
 			d.shortReads = tp.intn(3) == 0
+			if !o.reliableOrderedOnly && tp.intn(3) == 0 && (w.params["kf_recv_unordered"] != 0 || (w.cfg.Side[0].Interleaving && w.cfg.Side[1].Interleaving)) {
+				// ordered and unordered messages share the stream (only with interleaving on both
+				// sides: in DATA mode this is the trigger region of known finding KF4)
+				d.flip = make([]bool, len(d.sizes))
+				for j := range d.flip {
+					d.flip[j] = tp.intn(3) == 0
+				}
+			}
 			if o.slowReaders && tp.intn(2) == 0 {
 				d.readPause = 1 + tp.intn(5)
 				d.pauseFor = time.Duration(1+tp.intn(20)) * time.Second
